@@ -257,6 +257,43 @@ fn several_tokens(rep: &mut Report, rng: &mut Rng) {
     }
 }
 
+/// A raw string or a literal denotes its value wherever it stands — also where the current node
+/// is null (behind a pipe from a missing member, inside a parenthesised pipe, as the right side
+/// of `||`), where an evaluator that propagates null early never gets to look at it.
+fn token_under_null(rep: &mut Report, rng: &mut Rng) {
+    let (tok, want): (String, Value) = if rng.chance(1, 2) {
+        let s = rand_string(rng, 8);
+        match spell_raw(&s) {
+            Some(sp) => (sp, Value::String(s)),
+            None => return,
+        }
+    } else {
+        let v = match rng.below(4) {
+            0 => Value::String(rand_string(rng, 6)),
+            1 => json!([rand_string(rng, 3), 1]),
+            // integers at and beyond the ends of the signed 64-bit range, as literals
+            2 => [json!(18446744073709551615u64), json!(9223372036854775808u64), json!(9223372036854775807i64), json!(-9223372036854775808i64), json!(9007199254740993u64)][rng.below(5)].clone(),
+            _ => json!({"k": [18446744073709551615u64, rand_string(rng, 3)]}),
+        };
+        (format!("`{}`", spell_json(&v, rng.below(3) as u8).replace('`', "\\`")), v)
+    };
+    const CTX: [(&str, bool); 12] = [
+        ("nope | {}", false), ("nope | (@ | {})", false), ("[nope | {}]", true), ("nope || {}", false), ("(nope | @) | {}", false), ("nope.x | {}", false), ("`null` | {}", false),
+        ("[`null`][0] | (@ | {})", false), ("{a: nope | (@ | {})}.a", false), ("nope | nope | {}", false), ("nope | ({} | @)", false), ("[nope | (nope | {})]", true),
+    ];
+    let (frame, listed) = CTX[rng.below(CTX.len())];
+    let text = frame.replacen("{}", &tok, 1);
+    let want = if listed { Value::Array(vec![want]) } else { want };
+    rep.evaluations += 1;
+    match search(&text, &json!({"z": 0})) {
+        Ok(Ok(got)) if val_identical(&got, &want) && got.to_string() == want.to_string() => {
+            rep.count("token_under_null_ok");
+            rep.nontrivial(fnv(text.as_bytes()));
+        }
+        other => rep.violation("C09/token-loses-its-value-under-a-null-current-node", json!({"expression": text, "expected": want, "got": format!("{:?}", other)})),
+    }
+}
+
 pub fn run(args: &Args) {
     let mut rep = Report::new("C09");
     // exhaustive: all strings of length <= 3 over the 8 most dangerous characters, 3 forms
@@ -308,6 +345,7 @@ pub fn run(args: &Args) {
         }
         roundtrips(&mut rep, &mut rng, i);
         several_tokens(&mut rep, &mut rng);
+        token_under_null(&mut rep, &mut rng);
         if i % 6 == 0 {
             // long bodies, well-formed or not, with multi-byte characters where text gets cut
             let around = [16usize, 32, 64, 100, 128, 160, 200, 256, 512, 1024, 4096][rng.below(11)];
